@@ -6,7 +6,7 @@ from .. import scenario
 ID = "C10"
 LEVEL = "fault_enumeration"
 RULE = ("the full cross product (declaration context: module / function / block, each declared as `const C: T = v`, `const C = v`, by "
-        "unpacking `const [C, z] = [v, 0]` or as `export const`; class name / imported module / imported member) x (type: int, str, bool, [int...], int?, object with a field) x (write form: =, += -= *= /= %=, ?= in "
+        "unpacking `const [C, z] = [v, 0]` or as `export const`; class name / imported module / imported module under another name / imported member) x (type: int, str, bool, [int...], int?, object with a field) x (write form: =, += -= *= /= %=, ?= in "
         "statement / if / while position, modify = from an inner function, c[i] = v, c[i] += v, c.f = v, c.f += v, reuse as "
         "from-loop counter, unpacking) x (write context: same scope, nested block, loop body, nested function, method, another "
         "module), inapplicable combinations skipped by typing, is enumerated completely in both tiers. Oracle: the program is "
@@ -138,6 +138,10 @@ def special_programs():
                 continue
             src = "import lib\nprint \"@start\"\n" + place_write(w, ctx) + "\nprint \"@obs\"\nprint lib.V\nprint lib.get_v()\n"
             out.append(({"decl": "imported-module", "type": "module", "form": w, "wctx": ctx}, {"main.ms": src, "lib.ms": lib}, "5"))
+        # the module under another name: members stay unwritable (value read back through the module and a getter)
+        for w in ("k.V = 7", "k.V += 1", "k.counter = 3", "k.counter += 1", "k.counter ?= 3"):
+            src = "import lib\nk = lib\nprint \"@start\"\n" + place_write(w, ctx) + "\nprint \"@obs\"\nprint lib.%s\nprint lib.%s\n" % (("V", "get_v()") if "V" in w else ("counter", "counter"))
+            out.append(({"decl": "module-alias", "type": "module", "form": w, "wctx": ctx}, {"main.ms": src, "lib.ms": lib}, "5" if "V" in w else "0"))
         for w in ("V = 7", "V += 1", "V -= 1", "modify V = 7", "from 0 to 3, V {\n}", "[V, z] = [1, 2]", "V: int = 7"):
             if w.startswith("modify") and ctx != "fn":
                 continue
